@@ -3,6 +3,7 @@ package sim
 import (
 	"encoding/binary"
 	"errors"
+	"sync"
 	"time"
 )
 
@@ -95,6 +96,10 @@ type seededReader struct {
 	reads   int
 	onRead  func()
 	blocked bool
+	// perTask returns the calling task's own stream in concurrent mode (so
+	// that a client's randomness does not depend on the interleaving)
+	perTask func() *Rng
+	mu      sync.Mutex
 }
 
 var errRand = errors.New("sim: injected entropy failure")
@@ -103,14 +108,25 @@ func (s *seededReader) Read(p []byte) (int, error) {
 	if s.onRead != nil {
 		s.onRead()
 	}
-	s.reads++
+	if s.perTask == nil {
+		s.reads++
+	}
 	if s.failN > 0 {
 		s.failN--
 		return 0, errRand
 	}
+	rng := s.rng
+	if s.perTask != nil {
+		if tr := s.perTask(); tr != nil {
+			rng = tr
+		} else {
+			s.mu.Lock()
+			defer s.mu.Unlock()
+		}
+	}
 	var b [8]byte
 	for i := 0; i < len(p); i += 8 {
-		binary.LittleEndian.PutUint64(b[:], s.rng.U64())
+		binary.LittleEndian.PutUint64(b[:], rng.U64())
 		copy(p[i:], b[:])
 	}
 	return len(p), nil
